@@ -34,7 +34,7 @@ class Calls:
                      'is_none', 'hashable', 'callraises', 'call', 'fresh_obj', 'is_int_key', 'int_key', 'ite', 'attr',
                      'has_attr', 'catches', 'exc_is', 'iff', 'dynattr', 'truthy', 'key_at', 'idx_of', 'old', 'is_fresh',
                      'seq_of', 'card', 'same_elements', 'typeof', 'callv', 'callvraises', 'isinst_dyn', 'lt', 'unhashable_any',
-                     'mhas', 'mget', 'shas', 'without_key', 're_compile_raises', 're_compile', 'as_map', 'as_seq', 'as_set', 'sat', 'slen', 'mlen', 'methraises', 'methcall', 'gen_of', 'nth_where', 'count_where', 'ghost', 'zlen', 'isfinite', 'ret_make_converter', 'ret_into_data', 'ret', 'retc', 'clsref', 'attr_named', 'id_of', 'fnref', 'called', 'hash_of', 'forall_bools4', 'methv', 'getattr', 'kept_seq', 'get_origin', 'get_args', 'callraises_as', 'isabstract', 'issub'}
+                     'mhas', 'mget', 'shas', 'without_key', 're_compile_raises', 're_compile', 'as_map', 'as_seq', 'as_set', 'sat', 'slen', 'mlen', 'methraises', 'methcall', 'gen_of', 'nth_where', 'count_where', 'ghost', 'zlen', 'isfinite', 'ret_make_converter', 'ret_into_data', 'ret', 'retc', 'clsref', 'attr_named', 'ext', 'did_call', 'exited', 'cm_enter', 'clsref_dotted', 'List', 'id_of', 'fnref', 'called', 'hash_of', 'forall_bools4', 'methv', 'getattr', 'kept_seq', 'get_origin', 'get_args', 'callraises_as', 'isabstract', 'issub'}
 
     # ------------------------------------------------------------------------------------
     def ev_Call(self, node, st):
